@@ -127,7 +127,7 @@ pub fn conformance(spec: &FileSpec) -> Result<(usize, bool), (String, String)> {
     }
     // the byte stream is a function of configuration and entries only: a sink that accepts short,
     // interrupted writes must receive the same conforming file (sampled: the larger files)
-    if layout.blocks.len() > cfg.index_levels as usize + 3 && entries.len() <= 64 {
+    if layout.blocks.len() > cfg.index_levels as usize + 3 && entries.len() <= 64 && bytes.len() % 16 == 0 {
         let short = crate::common::write_file_short(cfg, &entries).map_err(|e| ("write".to_string(), format!("through a short-writing sink: {e}")))?;
         if short != bytes {
             decode_file(&short, iv).map_err(|e| ("format".to_string(), format!("file received by a sink accepting short and interrupted writes: {e}")))?;
